@@ -287,36 +287,20 @@ func (db *DB) basicExport(ctx context.Context, config *client.BackupConfig) (err
 									return err
 								}
 							} else {
-								oldForeignDoc, err := foreignDoc.ToMap()
-								if err != nil {
-									return err
-								}
-
-								delete(oldForeignDoc, request.DocIDFieldName)
 								if foreignDoc.ID().String() == doc.ID().String() {
 									// self reference: the new docID is computed without the reference
-									delete(oldForeignDoc, field.Name+request.RelatedObjectID)
-								}
-
-								if foreignDoc.ID().String() == doc.ID().String() {
 									isSelfReference = true
 									refFieldName = field.Name + request.RelatedObjectID
-								}
-
-								newForeignDoc, err := client.NewDocFromMap(oldForeignDoc, foreignCol.Definition())
-								if err != nil {
-									return err
-								}
-
-								if foreignDoc.ID().String() != doc.ID().String() {
-									err = doc.Set(field.Name+request.RelatedObjectID, newForeignDoc.ID().String())
+								} else {
+									newForeignDocID, err := db.exportedDocID(
+										ctx, definitionCache, foreignCol, foreignDoc, keyChangeCache, map[string]struct{}{})
 									if err != nil {
 										return err
 									}
-								}
-
-								if newForeignDoc.ID().String() != foreignDoc.ID().String() {
-									keyChangeCache[foreignDoc.ID().String()] = newForeignDoc.ID().String()
+									err = doc.Set(field.Name+request.RelatedObjectID, newForeignDocID)
+									if err != nil {
+										return err
+									}
 								}
 							}
 						}
@@ -394,6 +378,82 @@ func (db *DB) basicExport(ctx context.Context, config *client.BackupConfig) (err
 	}
 
 	return nil
+}
+
+// exportedDocID returns the docID that the given document gets when the export is imported: the ID
+// of its current content with every foreign key replaced by the exported docID of the document it
+// points to, which in turn depends on the documents that one points to. A reference of a document
+// to itself is left out, the import adds it with an update.
+//
+// Results are recorded in newDocIDs (old docID -> new docID).
+func (db *DB) exportedDocID(
+	ctx context.Context,
+	definitionCache client.DefinitionCache,
+	col client.Collection,
+	doc *client.Document,
+	newDocIDs map[string]string,
+	inProgress map[string]struct{},
+) (string, error) {
+	oldDocID := doc.ID().String()
+	if newDocID, ok := newDocIDs[oldDocID]; ok {
+		return newDocID, nil
+	}
+	if _, ok := inProgress[oldDocID]; ok {
+		// a cycle of references over more than one document, the new docIDs depend on each other
+		return oldDocID, nil
+	}
+	inProgress[oldDocID] = struct{}{}
+	defer delete(inProgress, oldDocID)
+
+	docM, err := doc.ToMap()
+	if err != nil {
+		return "", err
+	}
+	delete(docM, request.DocIDFieldName)
+
+	for _, field := range col.Schema().Fields {
+		if !field.Kind.IsObject() || field.Kind.IsArray() {
+			continue
+		}
+		fieldName := field.Name + request.RelatedObjectID
+		foreignKey, ok := docM[fieldName].(string)
+		if !ok {
+			continue
+		}
+		if foreignKey == oldDocID {
+			delete(docM, fieldName)
+			continue
+		}
+		foreignDef, ok := client.GetDefinition(definitionCache, col.Definition(), field.Kind)
+		if !ok {
+			// the backup was not configured to handle this collection
+			continue
+		}
+		foreignCol, err := db.newCollection(foreignDef.Version, foreignDef.Schema)
+		if err != nil {
+			return "", err
+		}
+		foreignDocID, err := client.NewDocIDFromString(foreignKey)
+		if err != nil {
+			return "", err
+		}
+		foreignDoc, err := foreignCol.Get(ctx, foreignDocID, false)
+		if err != nil {
+			docM[fieldName] = nil
+			continue
+		}
+		docM[fieldName], err = db.exportedDocID(ctx, definitionCache, foreignCol, foreignDoc, newDocIDs, inProgress)
+		if err != nil {
+			return "", err
+		}
+	}
+
+	newDoc, err := client.NewDocFromMap(docM, col.Definition())
+	if err != nil {
+		return "", err
+	}
+	newDocIDs[oldDocID] = newDoc.ID().String()
+	return newDocIDs[oldDocID], nil
 }
 
 func writeString(f *os.File, normal, pretty string, isPretty bool) error {
